@@ -958,6 +958,17 @@ class Exec:
         try:
             v = self.eval_bool(test, st, static_only=True)
         except _NotStatic:
+            # not decided by the declared types alone: still static if it evaluates to a literal truth value (comparisons
+            # of compile-time constants, e.g. a fixed axis number against a position in a fixed-length tuple)
+            try:
+                v = self.eval_bool(test, st.copy())
+            except (Unsupported, _NotStatic, PathEnd):
+                return None
+            v = z3.simplify(v)
+            if z3.is_true(v):
+                return True
+            if z3.is_false(v):
+                return False
             return None
         v = z3.simplify(v)
         if z3.is_true(v):
@@ -1865,7 +1876,7 @@ class Exec:
                 return I(S.f_at(base.t, n + sidx.as_long()))
             if z3.is_int_value(sidx):
                 return I(S.f_at(base.t, sidx))
-            return I(S.f_at(base.t, z3.If(idx < 0, idx + n, idx)))
+            return I(S.pyat(base, idx))
         raise Unsupported(f"subscript on {base!r} line {node.lineno}")
 
     def subslice(self, base, lo, hi, stp, st, node):
@@ -1893,9 +1904,7 @@ class Exec:
                 return SeqV(S.f_rev(base.t), base.kind)
             if stepc not in (None, 1):
                 raise Unsupported("stepped slicing of symbolic sequence")
-            a, b, _ = S.idx3(SliceV(lo, hi, NONE), n)
-            b = z3.If(b < a, a, b)
-            return SeqV(S.f_slice(base.t, a, b), base.kind)
+            return S.pyslice(base, lo, hi)
         raise Unsupported(f"slicing of {base!r} line {node.lineno}")
 
     def expr_ListComp(self, node, st):
